@@ -1,6 +1,6 @@
 """C13 - static priority always serves the highest-priority backlogged flow (SP)."""
 import random
-from harness.mq import gen_case, evaluate, cases_from_replay
+from harness.mq import gen_group, evaluate, cases_from_replay
 from harness.mqoracle import oracle_c13, oracle_c12
 
 ASSUMPTIONS = [
@@ -16,7 +16,7 @@ TRUSTED_EXTRA = ['the kernel guarantees (G1-G3) that make `tick` admissible only
 
 
 def gen(rng, n):
-    return [gen_case(rng, i, 'sp', backlog=rng.random() < 0.6) for i in range(n)]
+    return [gen_group(rng, i, 'sp', backlog=rng.random() < 0.6, share=0.35) for i in range(n)]
 
 
 # ---- BEGIN spk leg: SP as processes on the kernel MODEL (lean/OnlVerif/Net/SPOnK.lean, driver mode `spk`) ----
